@@ -39,14 +39,15 @@ from .. import common
 ID = "C19"
 LEVEL = "exploration"
 RULE = (
-    "layouts = (IDF root is/is not itself a project) x rename files {place: X|Y|XY} (<=3) x defaults files {place: X|Y|XY} "
-    "(1..3) over 7 places, canonical under the X<->Y symmetry; quick: one-option layouts with (r<=2,d<=3) or (r=3,d<=2) plus "
-    "two-option layouts with r<=2,d<=2,r+d<=3; thorough: all one-option layouts r<=3,d<=3 plus the two-option layouts with "
-    "r+d<=4 (d=3: defaults files name one option each; r=d=2: rename files name one option each). Per layout: invocation variants (IDF_PATH env / cwd fallback; explicit rename files none/each/all; --includes "
-    "none / examples / examples/pa / [thorough: root, examples/common, examples/pa/nested, two dirs]) x EVERY non-empty "
-    "ordered selection of the defaults files (single explicit rename files, which only change the global set, and in quick the "
-    "cwd / explicit variants use singletons + the full list forward and reversed). One evaluation = one invocation (prepare + one check call per file). distinct_nontrivial = distinct "
-    "(layout, explicit, includes, verdict vector)."
+    "layouts = (IDF root is / is not itself a project) x rename files {place: X|Y|XY} (<=3) x defaults files {place: X|Y|XY} (1..3) "
+    "over 7 places, canonical under the X<->Y symmetry. quick: one-option layouts with (r<=2,d<=2), (r<=1,d=3) or (r=3,d=1) plus "
+    "two-option layouts with r<=2, d<=2, r+d<=3 (r+d=3: every file names one option). thorough: all one-option layouts r<=3, d<=3 "
+    "plus the two-option layouts with r+d<=4 (d=3: each defaults file names one option; r=d=2: each rename file names one option). "
+    "Per layout: invocation variants (IDF_PATH from the environment / cwd fallback; explicit rename files none / each / all; "
+    "--includes none / examples / examples/pa [thorough: root, examples/common, examples/pa/nested, two dirs]) x EVERY non-empty "
+    "ordered selection of the defaults files as argument list (variants with a single explicit rename file, which only changes "
+    "the global set, and in quick the cwd / explicit variants use singletons + the full list forward and reversed). One evaluation "
+    "= one invocation (prepare + one check call per file). distinct_nontrivial = distinct (layout, explicit, includes, verdict vector)."
 )
 ASSUMPTIONS = [
     "the IDF root is not a 'project' in the sense of the statement even when its CMakeLists.txt calls project() (ESP-IDF's does; the "
@@ -176,7 +177,11 @@ def in_tier(ren, dfl, tier: str) -> bool:
         if r == 2 and d == 2:
             return _no_xy(ren)
         return True
-    return r <= 2 and d <= 2 and r + d <= 3
+    if not (r <= 2 and d <= 2 and r + d <= 3):
+        return False
+    if r + d == 3:
+        return _no_xy(ren) and _no_xy(dfl)
+    return True
 
 
 def layouts(tier: str):
